@@ -16,6 +16,7 @@ set_option exponentiation.threshold 600
 
 namespace Dalek.Props.C02.Scalar52
 open Dalek.IR Dalek.Proofs.Scalar52 Dalek.Gen.Norm.Scalar52 Dalek.Model.Contracts Dalek.Gen.Consts
+open Dalek.Model.FieldBytes (leVal)
 
 /-- the group order -/
 abbrev l : Nat := 2 ^ 252 + 27742317777372353535851937790883648493
@@ -294,5 +295,92 @@ theorem montgomery_reduce_spec (hin : EnvIn [z0, z1, z2, z3, z4, z5, z6, z7, z8]
   exact ⟨by exact_mod_cast hcan.2, nat_mont_of_zmod (zmod_of_dvd hd)⟩
 
 end
+
+
+section
+variable (x0 x1 x2 x3 x4 x5 x6 x7 x8 x9 x10 x11 x12 x13 x14 x15 x16 x17 x18 x19 x20 x21 x22 x23 x24 x25 x26 x27 x28 x29 x30 x31 : Nat)
+
+/-- `Scalar52::from_bytes`: the five limbs (`< 2^52`, top limb `< 2^48`) of the little-endian value of the 32 bytes -/
+theorem from_bytes_spec (hin : EnvIn [x0, x1, x2, x3, x4, x5, x6, x7, x8, x9, x10, x11, x12, x13, x14, x15, x16, x17, x18, x19, x20, x21, x22, x23, x24, x25, x26, x27, x28, x29, x30, x31] Scalar52.pre_from_bytes) :
+    ∃ out, Dalek.Gen.Scalar52.from_bytes.evalC [x0, x1, x2, x3, x4, x5, x6, x7, x8, x9, x10, x11, x12, x13, x14, x15, x16, x17, x18, x19, x20, x21, x22, x23, x24, x25, x26, x27, x28, x29, x30, x31] = some out ∧
+      Dalek.Gen.Scalar52.from_bytes.evalW [x0, x1, x2, x3, x4, x5, x6, x7, x8, x9, x10, x11, x12, x13, x14, x15, x16, x17, x18, x19, x20, x21, x22, x23, x24, x25, x26, x27, x28, x29, x30, x31] = out ∧
+      EnvIn out (rep 4 (ub (2 ^ 52 - 1)) ++ [ub (2 ^ 48 - 1)]) ∧
+      val52 out = leVal [x0, x1, x2, x3, x4, x5, x6, x7, x8, x9, x10, x11, x12, x13, x14, x15, x16, x17, x18, x19, x20, x21, x22, x23, x24, x25, x26, x27, x28, x29, x30, x31] := by
+  obtain ⟨out, hC, hW, hpost, hZ⟩ := Prog.norm_sound _ _ _ _ from_bytes_norm_ok _ hin
+  refine ⟨out, hC, hW, EnvIn_of_itvsLe hpost (by decide +kernel), ?_⟩
+  have hl := limBytes_of_envIn hin
+  simp only [toZ_cons, toZ_nil] at hZ hl
+  rw [from_bytes_fn_ok] at hZ
+  obtain ⟨o0, o1, o2, o3, o4, he, -, -, hv⟩ := from_bytes_fn_spec _ _ _ _ _ _ _ _ _ _ _ _ _ _ _ _ _ _ _ _ _ _ _ _ _ _ _ _ _ _ _ _ hl
+  rw [he] at hZ
+  have h := val_of_toZ hZ.symm
+  rw [hv] at h
+  have h2 := leValZ_toZ [x0, x1, x2, x3, x4, x5, x6, x7, x8, x9, x10, x11, x12, x13, x14, x15, x16, x17, x18, x19, x20, x21, x22, x23, x24, x25, x26, x27, x28, x29, x30, x31]
+  simp only [toZ_cons, toZ_nil] at h2
+  rw [h2] at h
+  exact_mod_cast h
+
+end
+
+section
+variable (a0 a1 a2 a3 a4 : Nat)
+
+/-- `Scalar52::as_bytes`: for limbs `< 2^52` with value `< 2^256` the 32 output bytes are the little-endian
+encoding of the value -/
+theorem as_bytes_spec (hin : EnvIn [a0, a1, a2, a3, a4] Scalar52.pre_as_bytes)
+    (hv : val52 [a0, a1, a2, a3, a4] < 2 ^ 256) :
+    ∃ out, Dalek.Gen.Scalar52.as_bytes.evalC [a0, a1, a2, a3, a4] = some out ∧
+      Dalek.Gen.Scalar52.as_bytes.evalW [a0, a1, a2, a3, a4] = out ∧
+      EnvIn out (bytes 32) ∧ leVal out = val52 [a0, a1, a2, a3, a4] := by
+  obtain ⟨out, hC, hW, hpost, hZ⟩ := Prog.norm_sound _ _ _ _ as_bytes_norm_ok _ hin
+  refine ⟨out, hC, hW, EnvIn_of_itvsLe hpost (by decide +kernel), ?_⟩
+  have hl := lim52_of_envIn hin
+  simp only [toZ_cons, toZ_nil] at hZ hl
+  obtain ⟨hl4, hl1⟩ := Lim_split4 hl
+  rw [as_bytes_fn_ok] at hZ
+  have h := leVal_of_toZ hZ.symm
+  rw [as_bytes_fn_spec _ _ _ _ _ hl4 ⟨Int.natCast_nonneg a4, by simp only [val52] at hv; omega⟩, repZ_cast5] at h
+  exact_mod_cast h
+
+end
+
+section
+variable (x0 x1 x2 x3 x4 x5 x6 x7 x8 x9 x10 x11 x12 x13 x14 x15 x16 x17 x18 x19 x20 x21 x22 x23 x24 x25 x26 x27 x28 x29 x30 x31 x32 x33 x34 x35 x36 x37 x38 x39 x40 x41 x42 x43 x44 x45 x46 x47 x48 x49 x50 x51 x52 x53 x54 x55 x56 x57 x58 x59 x60 x61 x62 x63 : Nat)
+
+/-- `Scalar52::from_bytes_wide`: the canonical representative of the little-endian value of the 64 bytes -/
+theorem from_bytes_wide_spec (hin : EnvIn [x0, x1, x2, x3, x4, x5, x6, x7, x8, x9, x10, x11, x12, x13, x14, x15, x16, x17, x18, x19, x20, x21, x22, x23, x24, x25, x26, x27, x28, x29, x30, x31, x32, x33, x34, x35, x36, x37, x38, x39, x40, x41, x42, x43, x44, x45, x46, x47, x48, x49, x50, x51, x52, x53, x54, x55, x56, x57, x58, x59, x60, x61, x62, x63] Scalar52.pre_from_bytes_wide) :
+    ∃ out, Dalek.Gen.Scalar52.from_bytes_wide.evalC [x0, x1, x2, x3, x4, x5, x6, x7, x8, x9, x10, x11, x12, x13, x14, x15, x16, x17, x18, x19, x20, x21, x22, x23, x24, x25, x26, x27, x28, x29, x30, x31, x32, x33, x34, x35, x36, x37, x38, x39, x40, x41, x42, x43, x44, x45, x46, x47, x48, x49, x50, x51, x52, x53, x54, x55, x56, x57, x58, x59, x60, x61, x62, x63] = some out ∧
+      Dalek.Gen.Scalar52.from_bytes_wide.evalW [x0, x1, x2, x3, x4, x5, x6, x7, x8, x9, x10, x11, x12, x13, x14, x15, x16, x17, x18, x19, x20, x21, x22, x23, x24, x25, x26, x27, x28, x29, x30, x31, x32, x33, x34, x35, x36, x37, x38, x39, x40, x41, x42, x43, x44, x45, x46, x47, x48, x49, x50, x51, x52, x53, x54, x55, x56, x57, x58, x59, x60, x61, x62, x63] = out ∧
+      EnvIn out limbs52 ∧
+      val52 out = leVal [x0, x1, x2, x3, x4, x5, x6, x7, x8, x9, x10, x11, x12, x13, x14, x15, x16, x17, x18, x19, x20, x21, x22, x23, x24, x25, x26, x27, x28, x29, x30, x31, x32, x33, x34, x35, x36, x37, x38, x39, x40, x41, x42, x43, x44, x45, x46, x47, x48, x49, x50, x51, x52, x53, x54, x55, x56, x57, x58, x59, x60, x61, x62, x63] % l := by
+  obtain ⟨out, hC, hW, hpost, hZ⟩ := Prog.norm_sound _ _ _ _ from_bytes_wide_norm_ok _ hin
+  refine ⟨out, hC, hW, EnvIn_of_itvsLe hpost (by decide +kernel), ?_⟩
+  have hl := limBytes_of_envIn hin
+  simp only [toZ_cons, toZ_nil] at hZ hl
+  rw [from_bytes_wide_fn_ok] at hZ
+  obtain ⟨o0, o1, o2, o3, o4, he, -, hv⟩ := from_bytes_wide_fn_spec _ _ _ _ _ _ _ _ _ _ _ _ _ _ _ _ _ _ _ _ _ _ _ _ _ _ _ _ _ _ _ _ _ _ _ _ _ _ _ _ _ _ _ _ _ _ _ _ _ _ _ _ _ _ _ _ _ _ _ _ _ _ _ _ hl
+  rw [he] at hZ
+  have h := val_of_toZ hZ.symm
+  rw [hv] at h
+  have h2 := leValZ_toZ [x0, x1, x2, x3, x4, x5, x6, x7, x8, x9, x10, x11, x12, x13, x14, x15, x16, x17, x18, x19, x20, x21, x22, x23, x24, x25, x26, x27, x28, x29, x30, x31, x32, x33, x34, x35, x36, x37, x38, x39, x40, x41, x42, x43, x44, x45, x46, x47, x48, x49, x50, x51, x52, x53, x54, x55, x56, x57, x58, x59, x60, x61, x62, x63]
+  simp only [toZ_cons, toZ_nil] at h2
+  rw [h2] at h
+  exact nat_emod_of_int h
+
+end
+
+/-! ## non-vacuity of the hypotheses -/
+
+/-- the all-limbs-at-the-bound input satisfies the limb contract (used by `sub`, `add`, `mul`, …) -/
+example : EnvIn (List.replicate 10 (2 ^ 52 - 1)) Scalar52.pre_mul := by decide +kernel
+/-- `l - 1` is a canonical input inside the limb contract -/
+example : EnvIn [671914833335276, 3916664325105025, 1367801, 0, 17592186044416] (rep 5 Scalar52.lim) ∧
+    val52 [671914833335276, 3916664325105025, 1367801, 0, 17592186044416] < l := by decide +kernel
+/-- the largest `mul_internal` output satisfies the `montgomery_reduce` contract -/
+example : EnvIn (List.replicate 9 (5 * (2 ^ 52 - 1) * (2 ^ 52 - 1))) Scalar52.pre_montgomery_reduce := by decide +kernel
+/-- the value bound of `montgomery_reduce_spec` is satisfiable together with the contract -/
+example : EnvIn [1, 2, 3, 4, 5, 6, 7, 8, 9] Scalar52.pre_montgomery_reduce ∧
+    val52 [1, 2, 3, 4, 5, 6, 7, 8, 9] < 2 ^ 260 * l := by decide +kernel
+example : EnvIn (List.replicate 64 255) Scalar52.pre_from_bytes_wide := by decide +kernel
 
 end Dalek.Props.C02.Scalar52
